@@ -679,6 +679,8 @@ func unpackCorpus(arena string) []*UCase {
 		mk(D("e/", 0700)),                                     // F6 (fixed)
 		mk(L("/a", "e")),                                      // F11 (fixed)
 		mk(L("a/l", ".."), L("n/../a/l/k", "../x")),           // F28 (fixed)
+		mk(L("s", "."), L("l", "s/.."), F("n/../l/evil.txt", "pwn")), // F28 (fixed) through an F3 chain: refused at the Lstat walk
+		mk(L("s", "."), L("l", "s/.."), D("n/../l/evildir/", 0700)),
 		mk(L("l", arena+"/p/q/dst/a")),                            // F12
 		mk(D("d/", 0555), F("d/a", "x"), F("d/a", "y")),
 		mk(F("a", "1"), F("a", "2")),
@@ -712,7 +714,7 @@ func init() {
 			_ = i
 			jobs = append(jobs, job{c: c})
 		}
-		for len(jobs) < cfg.N+14 {
+		for len(jobs) < cfg.N+16 {
 			jobs = append(jobs, job{})
 		}
 		for i := range jobs {
